@@ -435,7 +435,9 @@ def c08(rec):
 # C09: plated sum-product
 
 def _sp_sig(rec):
-    fs = ";".join(",".join(n for n, _ in f["ins"]) for f in rec["factors"])
+    fs = ";".join(",".join(n for n, _ in (f if f["c"] == "Ten" else f["l"])["ins"]) for f in rec["factors"])
+    if rec.get("param"):
+        fs += ";param"
     return "%s/%s[%s]elim{%s}" % (rec["plus"], rec["times"], fs, ",".join(sorted(rec["elim"])))
 
 
@@ -490,7 +492,7 @@ def c09(rec):
     judge("modified", lambda: prod(modified_partial_sum_product(plus, times, factors, elim, p2s)))
     judge("dynamic", lambda: prod(dynamic_partial_sum_product(plus, times, factors, elim, p2s)))
     backend = EINSUM_BACKENDS.get((rec["plus"], rec["times"]))
-    if backend:
+    if backend and not rec.get("param"):       # einsum operands are tensors
         from funsor.einsum import einsum, naive_plated_einsum
         names = []
         for f in rec["factors"]:
@@ -561,6 +563,10 @@ def c10(rec):
         return funsor.reinterpret(m)
     judge("MarkovProduct_lazy", lazy_mp)
     # C->S: the scan run under lazy emits a term (slices, cats, contractions, renamings)
+    if rec.get("param"):
+        # the expected table ranges over sample points of the real parameter: it is not a tensor
+        # leaf, so the lazily emitted terms of parameter problems are not judged (values are)
+        return out
     lhs = _exp_as_ten(exp)
     for what, fn in (("sequential", lambda: sequential_sum_product(plus, times, trans, time, step)),
                      ("mixed", lambda: mixed_sequential_sum_product(plus, times, trans, time, step,
